@@ -38,6 +38,9 @@ def content_bytes(spec):
         return bytes.fromhex(spec[1:])
     n, seed = spec[1:].split(".")
     n, seed = int(n), int(seed)
+    if n > 65536:       # the pattern has period 65536
+        period = bytes((seed + 131 * i + 7 * (i >> 8)) & 255 for i in range(65536))
+        return (period * (n // 65536 + 1))[:n]
     return bytes((seed + 131 * i + 7 * (i >> 8)) & 255 for i in range(n))
 
 
@@ -392,7 +395,63 @@ def run_model(exe, cf, out, flags, timeout=1500):
     return split_out(out), ("" if rc == 0 else " model driver(%s) rc=%d: %s" % (flags, rc, o[-500:]))
 
 
-def execute(histories, exe, tag, cfg_flags, want_impl=True):
+def big_histories(rng, n):
+    """In-session compaction inside setData (quick and thorough): a few streams of 3-8 MiB are replaced and/or
+    invalidated until at least 16 MiB and half of the file are free, so that one of the following stores runs
+    truncateFile itself; every stream (in particular the one just stored) is read after every op.  Run against the
+    implementation and the oracle only: the extracted model needs minutes on 30 MiB byte lists (it runs the
+    16 MiB histories of huge_histories() in the thorough tier)."""
+    t = 1700000000 * 10 ** 9
+    mib = 1024 * 1024
+    hs = []
+    for k in range(n):
+        ids = rng.sample([0, 1, 2, 3, 5, 64, 4095], 4) + [7]
+        t0 = {i: t + rng.randrange(0, 10 ** 9) * 1000 for i in ids}
+        o = Oracle(t0)
+        ops = []
+
+        def big(sid, mb):
+            ln = int(mb * mib) + rng.randrange(-3, 4)
+            return ["store", sid, [[rng.randrange(2), "p%d.%d" % (ln, rng.randrange(256)), t0[sid] + 1000, rng.choice(["", "61"])],
+                                   [1, "p%d.%d" % (rng.choice([1, 3, 200]), rng.randrange(256)), t0[sid] + 3000, ""]]]
+
+        def small(sid):
+            return ["store", sid, [[rng.randrange(2), "h%02x%02x" % (rng.randrange(256), rng.randrange(256)), t0[sid] + 2000, ""]]]
+        todo = [big(i, rng.choice([3, 4, 5, 6, 8])) for i in ids[:4]] + [small(7)]
+        steps = 0
+        while steps < 40:
+            steps += 1
+            if todo:
+                op = todo.pop(0)
+            else:
+                fs, free = o.sizes()
+                live = sorted(o.live())
+                bigs = [i for i in live if i != 7 and o.live()[i]["size"] > mib]
+                r = rng.random()
+                if free >= MIN_FREE and free >= fs // 2:    # the next store compacts
+                    op = small(rng.choice(ids)) if r < 0.6 else big(rng.choice(ids[:4]), rng.choice([3, 4]))
+                elif bigs and r < 0.45:
+                    op = ["inval", sorted(rng.sample(bigs, rng.randrange(1, min(2, len(bigs)) + 1)))]
+                elif bigs and r < 0.75:
+                    op = small(rng.choice(bigs)) if rng.random() < 0.6 else big(rng.choice(bigs), rng.choice([3, 5]))
+                elif r < 0.9:
+                    op = small(rng.choice(ids))
+                else:
+                    op = big(rng.choice(ids[:4]), rng.choice([3, 4, 6]))
+            before = len(o.log)
+            o.apply(op)
+            ops.append(op)
+            if op[0] == "store" and len(o.log) < before:        # this store compacted
+                ops.append(small(rng.choice(ids)))
+                ops.append(["inval", [rng.choice(ids[:4])]])
+                ops.append(big(ids[0], 3))
+                ops.append(["reopen"])
+                break
+        hs.append({"ids": {str(i): t0[i] for i in ids}, "ops": ops, "regime": "bigcompact"})
+    return hs
+
+
+def execute(histories, exe, tag, cfg_flags, want_impl=True, want_model=True):
     """-> dict(impl, model_all, model_cfg, spec, drift, note)"""
     d = RUNDIR
     os.makedirs(d, exist_ok=True)
@@ -409,6 +468,9 @@ def execute(histories, exe, tag, cfg_flags, want_impl=True):
         if rc != 0:
             res["note"] += "go harness rc=%d: %s" % (rc, out[-1500:])
         res["impl"] = split_out(iout)
+    if not want_model:
+        res["model_all"] = res["model_cfg"] = [list(e) for e in exp]
+        return res
     res["model_all"], n = run_model(exe, cf, os.path.join(d, "model_all_%s.out" % tag), "111")
     res["note"] += n
     if cfg_flags != "111":
@@ -570,6 +632,34 @@ def main(tier, seed, replay=None):
         for f, hs in sorted(per.items()):
             print("KNOWN-FINDING: property=%s id=%s %d histories fail exactly as the model without this repair predicts, e.g. history %d at op %d (%s)"
                   % (PROP, f, len(hs), hs[0], known_hits[hs[0]], op_text(histories[hs[0]]["ops"][known_hits[hs[0]]])[:80]), flush=True)
+    # ---- in-session compaction (>= 16 MiB freed inside setData): implementation vs oracle
+    nbig, big_ops = 0, 0
+    if not replay:
+        bigs = big_histories(random.Random(seed * 7919 + 13), 4 if tier == "quick" else 24)
+        nbig, big_ops = len(bigs), sum(len(h["ops"]) for h in bigs)
+        rb = execute(bigs, exe, "big", cfg_flags, want_model=False)
+        if rb["note"]:
+            res["note"] += " " + rb["note"]
+        for i in range(len(bigs)):
+            j, kind = classify(rb, i)
+            if kind is None:
+                continue
+
+            def fails_big(ops, h=bigs[i]):
+                r = execute([dict(h, ops=ops)], exe, "bigmin", cfg_flags, want_model=False)
+                return classify(r, 0)[1] is not None
+            ops = ddmin(list(bigs[i]["ops"]), fails_big, max_tests=25)
+            hmin = dict(bigs[i], ops=ops)
+            r = execute([hmin], exe, "bigmin", cfg_flags, want_model=False)
+            jj, _ = classify(r, 0)
+            violation(PROP, {"property": PROP, "kind": "impl!=spec", "history": hmin, "failing_op": jj,
+                             "spec": [x[:600] for x in r["spec"][0]], "impl": [x[:600] for x in r["impl"][0]] if r["impl"] else None,
+                             "model": "not run in this pass (30 MiB byte lists); bin/check C15 --replay <this file> runs it",
+                             "what": "a store that runs truncateFile itself (>= 16 MiB and half of the file free); all streams are read after every op",
+                             "seed": seed, "note": r["note"], "replay_cmd": "bin/check C15 --replay <this file>"})
+            nviol += 1
+            break
+        _content_cache.clear()
     if nviol == 0 and res["note"]:
         violation(PROP, {"property": PROP, "broken": "correspondence harness could not run against this tree", "note": res["note"]}, no_input=True)
         nviol += 1
@@ -604,6 +694,7 @@ def main(tier, seed, replay=None):
         "evaluations": nops + nsweep,
         "distinct_nontrivial": len(distinct),
         "rule": "seeded op histories (2-25 ops over 2-5 stream ids) on one real cache file; after every op Contains, StreamCount, Data, DataForSearch of every stream of the history are compared impl = extracted model = Python log/dict oracle; crash = close, truncate to n bytes, NewCacheFile; sweep = every truncation point of the last records; non-trivial = >=3 ops, distinct by op list",
+        "in_session_compaction_histories": nbig, "in_session_compaction_ops": big_ops,
         "histories": len(histories), "corpus_histories": ncorpus, "ops": nops, "truncation_points_swept": nsweep,
         "op_distribution": opcount, "regime_distribution": regimes,
         "model_config_compared_with_impl": cfg_flags + " (torn-tail, tombstone, empty-chunk repair switches)",
